@@ -71,7 +71,8 @@ class Unsupported(Sub):
     shrink_budget = 250
     rule = ("after a generated prologue (address, configuration and endpoint toggles moved off their reset values) "
             "1..4 control requests with arbitrary bmRequestType (all types/recipients/directions), bRequest 0..255, "
-            "wValue, wIndex, wLength (0, short, > 64, 0xFFFF), each followed by observation traffic (address probe, "
+            "wValue, wIndex, wLength (0, short, > 64, 0xFFFF) -- incl. a CLEAR_FEATURE class over all 32 recipients and "
+            "all 16-bit selectors (multiples of 4, single high bits, 0xFFFC..) -- each followed by observation traffic (address probe, "
             "bulk IN/OUT on every endpoint, GET_CONFIGURATION); oracle = independent model: an unsupported request "
             "gets STALL at its first data-stage IN or at its status stage, no data packet, no ACK of its OUT data, "
             "and no change of address/configuration/toggles (seen by the observation traffic); supported requests "
@@ -83,14 +84,25 @@ class Unsupported(Sub):
     def strategy(self):
         def anything():
             return st.tuples(bm_values, breq_values, wvalue_values, windex_values, wlength_values).map(list)
-        clear_feature = st.tuples(st.sampled_from([0, 1, 2, 2, 2, 3]), st.just(1), st.sampled_from([0, 1, 1, 2]),
-                                  st.sampled_from([0, 0x81, 0x02, 0x84, 0x04, 0x83]), st.just(0)).map(list)
+        # CLEAR_FEATURE: the only supported form is recipient ENDPOINT (2) with selector ENDPOINT_HALT (0); every other
+        # (recipient, wValue) pair must STALL. Recipient is a 5-bit field and wValue a 16-bit one: draw both over
+        # their whole range, with the values that alias the supported pair in their low bits (recipient 2+8k, wValue a
+        # multiple of 4 / with only high bits set) and the defined selectors 0..2 well represented.
+        cf_recipient = st.one_of(st.sampled_from([0, 1, 2, 2, 2, 3]), st.integers(0, 31),
+                                 st.sampled_from([2, 6, 10, 18, 26, 4, 31]))
+        cf_selector = st.one_of(st.sampled_from([0, 1, 1, 2]), st.sampled_from([0, 3, 4, 8, 0x0100, 0x8000, 0xFFFC, 0xFFFF]),
+                                st.integers(0, 0xFFFF), st.integers(0, 0x3FFF).map(lambda x: 4 * x),
+                                st.integers(0, 15).map(lambda k: 1 << k))
+        clear_feature = st.tuples(cf_recipient, st.just(1), cf_selector,
+                                  st.one_of(st.sampled_from([0, 0x81, 0x02, 0x84, 0x04, 0x83]), windex_values),
+                                  st.just(0)).map(list)
         # an implemented request *code* under a class/vendor/reserved type must not reach the standard handler
         typed_impl = st.tuples(st.builds(lambda d, t, r: (d << 7) | (t << 5) | r, st.integers(0, 1), st.integers(1, 3),
                                          st.integers(0, 2)), st.sampled_from(STD_IMPL), wvalue_values,
                                windex_values, st.sampled_from([0, 0, 1, 2, 18])).map(list)
         req = st.fixed_dictionaries(dict(
-            raw=st.one_of(anything(), anything(), anything(), anything(), typed_impl, clear_feature, G.standard_requests()),
+            raw=st.one_of(anything(), anything(), anything(), anything(), typed_impl, clear_feature, clear_feature,
+                          G.standard_requests()),
             early=weighted([(None, 6), (0, 1), (1, 1)]),
             again=weighted([(0, 6), (1, 1)]),
             # the host may abandon a transfer after its first `cut` transactions (0 = runs to completion) or lose the
@@ -158,6 +170,9 @@ class Unsupported(Sub):
                 if (bm >> 5) & 3 and breq in STD_IMPL:
                     labels.add("implemented-code-with-non-standard-type")
                 labels.add("unsupported-" + cls)
+                if cls == "clear_feature_other":
+                    labels.add("clear-feature-" + ("endpoint" if bm & 0x1F == 2 else "recipient>3" if bm & 0x1F > 3 else
+                                                   "recipient<=3") + ("-selector>2" if wvalue > 2 else ""))
                 labels.add("unsupported-" + ("in" if bm >> 7 else "out") + ("-data" if wlength else "-nodata"))
                 if wlength > 64 and not bm >> 7:
                     labels.add("two-out-data-packets")
